@@ -849,6 +849,23 @@ def reciprocal(a):
 
 def sqrt(a):
     a = _dg(a)
+    if isinstance(a, Cx):
+        # principal complex square root w = p + jq:  p^2 - q^2 = re, 2pq = im, p >= 0 (and q >= 0 on the negative real axis)
+        if not _is_sym(a.re) and not _is_sym(a.im):
+            import cmath
+            w = cmath.sqrt(complex(a.re, a.im))
+            return Cx(w.real, w.imag)
+        key = ("csqrt", ENV.serial, frozenset(topoly(a.re).t.items()), frozenset(topoly(a.im).t.items()))
+        if key in _PURE:
+            return _PURE[key]
+        pv, qv = fresh_real("csqrt_re"), fresh_real("csqrt_im")
+        pp, pq = topoly(pv), topoly(qv)
+        add_side(zbool(eq(sub(pmul(pp, pp), pmul(pq, pq)), a.re)), defines=[pv, qv])
+        add_side(zbool(eq(pscale(pmul(pp, pq), 2), a.im)), defines=[pv, qv])
+        add_side(z3.And(pv >= 0, z3.Implies(pv == 0, qv >= 0)), defines=[pv, qv])
+        out = Cx(pp, pq)
+        _PURE[key] = out
+        return out
     if not _is_sym(a):
         return math.sqrt(a) if a >= 0 else math.nan
     if isinstance(a, Cases):
